@@ -164,8 +164,10 @@ def msg_name(m):
         return "ProposalPOL(pol%d,%d)" % (m["pol"], m["size"])
     if k == "NVB":
         return "NVB(r%d,%s,%d,%s)" % (m["r"], m["hdr"], m["size"], "commit" if m["commit"] else "nocommit")
-    if k in ("HasVote", "Vote"):
-        return "%s(r%d,t%d,i%d)" % (k, m["r"], m["t"], m["idx"])
+    if k == "HasVote":
+        return "HasVote(r%d,t%d,i%d)" % (m["r"], m["t"], m["idx"])
+    if k == "Vote":
+        return "Vote(h%+d,r%d,t%d,i%d)" % (m["h"] - 1, m["r"], m["t"], m["idx"])
     if k == "Maj23":
         return "Maj23(r%d,t%d)" % (m["r"], m["t"])
     return "VSBits(r%d,t%d,%s,%d)" % (m["r"], m["t"], m["hdr"], m["size"])
@@ -183,7 +185,20 @@ def norm_msg(m):
 
 
 def acts_to_seq(acts):
-    return [norm_msg(to_json(a["m"])) for a in acts if a.get("name") == "Hostile"]
+    """behaviour of TMPeerGossipSys -> (node class of the initial state, hostile messages in order)"""
+    ns = "later"
+    for a in acts:
+        if a.get("name") == "Init":
+            ns = a["class"]
+    return ns, [norm_msg(to_json(a["m"])) for a in acts if a.get("name") == "Hostile"]
+
+
+def class_name(nd):
+    if nd["step"] == "later":
+        return "later"
+    if nd["hasLC"]:
+        return "nh_commit"
+    return "nh_init5" if nd["abs"] == 5 else "nh_init"
 
 
 def run_seq_shard(ctx, run_resilient, binp, shard, units, settle):
@@ -205,29 +220,38 @@ def sequence_half(ctx, verdict, cov, quick, explicit=None):
     d = os.path.join(core.VERIF, "harness", "inpkg", "consensus")
     if not all(os.path.exists(os.path.join(d, f)) for f in SEQ_FILES):
         return None
-    mm = 3 if quick else 5
-    cfg = core.cfg_variant(ctx, "C17_gossip.cfg", "C17_gossip_run.cfg", {"MaxMsgs": mm})
-    rg = ctx.tlc("C17_gossip", cfg, must_pass=True, timeout=1200, label="gossip", workers=4)
+    mm = 2 if quick else 4
+    jobs = [("gossip", "C17_gossip", core.cfg_variant(ctx, "C17_gossip.cfg", "C17_gossip_run.cfg", {"MaxMsgs": mm}), True, None)]
     dump = os.path.join(ctx.work, "gossip_targeted")
-    rt = ctx.tlc("C17_gossip_targeted", "C17_gossip_targeted.cfg", dump=[dump], must_pass=True, timeout=600,
-                 label="gossip_targeted", workers=2)
-    targeted = [[norm_msg(m) for m in to_json(s["sq"])] for s in core.read_state_dump(dump + ".dump")]
-    # non-vacuity + attack schedule: the weakened spec is refuted with a sequence; that sequence is replayed
-    rw = ctx.tlc("C17_gossip", "C17_weak_BitArrayOpsAssumeEqualSize.cfg", timeout=600, label="weak_BitArrayOpsAssumeEqualSize", workers=2)
-    hit = [v for v in rw.violations if v["name"] == "NeverCrashes"]
-    if not hit:
-        raise Undecided("vacuity: Weak_BitArrayOpsAssumeEqualSize does not violate NeverCrashes (%s)" % rw.errors[:2])
-    attack = acts_to_seq([st["act"] for _h, st in hit[0]["trace"] if "act" in st])
-    rwt = ctx.tlc("C17_gossip_targeted", "C17_weak_BitArrayOpsAssumeEqualSize_targeted.cfg", timeout=300,
-                  label="weak_BitArrayOpsAssumeEqualSize_targeted", workers=2)
-    if not any(v["name"] == "TargetedNoCrash" for v in rwt.violations):
-        raise Undecided("vacuity: the targeted sequences do not refute Weak_BitArrayOpsAssumeEqualSize")
-    cov["nonvacuity"]["Weak_BitArrayOpsAssumeEqualSize refuted by TLC (NeverCrashes, TargetedNoCrash)"] = True
+    jobs.append(("gossip_targeted", "C17_gossip_targeted", "C17_gossip_targeted.cfg", True, [dump]))
+    weak = (("BitArrayOpsAssumeEqualSize", "NeverCrashes", "TargetedNoCrash"), ("LastCommitNilDeref", "NeverHalts", "TargetedNoHalt"),
+            ("SetRoundRecreatesRound", "NeverHalts", "TargetedNoHalt"))
+    for w, _i1, _i2 in weak:
+        jobs.append(("weak_" + w, "C17_gossip", "C17_weak_%s.cfg" % w, False, None))
+        jobs.append(("weak_%s_targeted" % w, "C17_gossip_targeted", "C17_weak_%s_targeted.cfg" % w, False, None))
+    with ThreadPoolExecutor(max_workers=4) as ex:
+        res = list(ex.map(lambda j: ctx.tlc(j[1], j[2], dump=j[4], must_pass=j[3], timeout=1200, label=j[0], workers=3), jobs))
+    byl = {j[0]: r for j, r in zip(jobs, res)}
+    rg, rt = byl["gossip"], byl["gossip_targeted"]
+    targeted = []
+    for st in core.read_state_dump(dump + ".dump"):
+        c = to_json(st["cs"])
+        targeted.append((class_name(c["nd"]), [norm_msg(m) for m in c["sq"]]))
+    # non-vacuity + attack schedules: every weakened spec is refuted with a sequence; that sequence is replayed
+    attacks = []
+    for w, inv, tinv in weak:
+        hit = [v for v in byl["weak_" + w].violations if v["name"] == inv]
+        if not hit:
+            raise Undecided("vacuity: Weak_%s does not violate %s (%s)" % (w, inv, byl["weak_" + w].errors[:2]))
+        if not any(v["name"] == tinv for v in byl["weak_%s_targeted" % w].violations):
+            raise Undecided("vacuity: the targeted sequences do not refute Weak_%s" % w)
+        attacks.append(("weak_" + w, acts_to_seq([st["act"] for _h, st in hit[0]["trace"] if "act" in st])))
+        cov["nonvacuity"]["Weak_%s refuted by TLC (%s, %s)" % (w, inv, tinv)] = True
     # simulated behaviours of the longer model
     scfg = core.cfg_variant(ctx, "C17_gossip.cfg", "C17_gossip_sim.cfg", {"MaxMsgs": 6}, drop_view=True)
     nsim = 120 if quick else 3000
     pref = os.path.join(ctx.work, "gsim")
-    rs = ctx.tlc("C17_gossip", scfg, simulate="file=%s,num=%d" % (pref, nsim), depth=14, seed=ctx.seed, workers=1,
+    rs = ctx.tlc("C17_gossip", scfg, simulate="file=%s,num=%d" % (pref, nsim), depth=16, seed=ctx.seed, workers=1,
                  timeout=600, label="gossip_sim")
     if rs.errors or rs.violations or rs.timed_out:
         raise Undecided("gossip simulation failed: %s" % (rs.errors or rs.violations)[:2])
@@ -238,26 +262,29 @@ def sequence_half(ctx, verdict, cov, quick, explicit=None):
             with open(os.path.join(dd, fn)) as f:
                 beh = parse_behaviour_text("\n".join(ln for ln in f.read().splitlines() if not ln.startswith("\\*")))
             os.remove(os.path.join(dd, fn))
-            sq = acts_to_seq([s["act"] for _h, s in beh[1:] if "act" in s])
-            if sq:
-                sims.append(sq)
+            ns, sq = acts_to_seq([s["act"] for _h, s in beh if "act" in s])
+            # a fresh node per sequence is expensive: simulated sequences of the initial-height classes are capped
+            if sq and (not ns.startswith("nh_init") or sum(1 for x in sims if x[0].startswith("nh_init")) < (8 if quick else 150)):
+                sims.append((ns, sq))
     units, seen = [], set()
-    sources = (("weak_BitArrayOpsAssumeEqualSize", [attack]), ("targeted", targeted), ("sim", sims))
+    sources = [(src, [a]) for src, a in attacks] + [("targeted", targeted), ("sim", sims)]
     if explicit is not None:
-        sources = (("replay", [[norm_msg(m) for m in sq] for sq in explicit]),)
+        sources = [("replay", [(ns, [norm_msg(m) for m in sq]) for ns, sq in explicit])]
     for src, lst in sources:
-        for sq in lst:
+        for ns, sq in lst:
             nm = seq_name(sq)
-            if not sq or nm in seen:
+            if not sq or (ns, nm) in seen:
                 continue
-            seen.add(nm)
-            units.append({"name": nm, "src": src, "msgs": sq})
+            seen.add((ns, nm))
+            units.append({"ns": ns, "name": nm, "src": src, "msgs": sq})
     if not units:
         raise Undecided("no sequences to execute")
     binp = ctx.go_build_test("consensus", SEQ_FILES, name="c17_consensus_seq")
-    nsh = max(1, min(4, len(units) // 50 + 1))
+    # shards: the initial-height classes need a fresh node per sequence (slow): spread them over all shards
+    nsh = max(1, min(6, len(units) // 40 + 1))
     shards_ = [[] for _ in range(nsh)]
-    for i, u in enumerate(units):
+    order = sorted(units, key=lambda u: (not u["ns"].startswith("nh_init"), u["ns"], u["name"]))
+    for i, u in enumerate(order):
         sh = shards_[i % nsh]
         u = dict(u)
         u["unit"] = len(sh)
@@ -271,7 +298,7 @@ def sequence_half(ctx, verdict, cov, quick, explicit=None):
     for x in v["viol"]:
         first = x["prefix"][0] if x["prefix"] else {}
         sig = {"half": "reactor-seq", "inv": x["inv"], "class": x["class"], "case": x["case"]}
-        verdict.add(sig, {"failing_step": x["row"], "prefix": x["prefix"], "sequence": first.get("msgs"),
+        verdict.add(sig, {"failing_step": x["row"], "prefix": x["prefix"], "sequence": first.get("msgs"), "ns": first.get("ns", "later"),
                           "tlc": {"inv": x["inv"], "class": x["class"], "case": x["case"]}, "crashes": crashes_all[:10]})
     distinct = set()
     for r in rows_all:
@@ -287,7 +314,10 @@ def sequence_half(ctx, verdict, cov, quick, explicit=None):
         drift_by[dr["what"]] = drift_by.get(dr["what"], 0) + 1
     cov["sequences"] = {
         "model": "every sequence of <= %d hostile messages (alphabet of %s) interleaved with the gossip goroutines" % (mm, "TMPeerGossip!HostileMsgs"),
-        "targeted_sequences": len(targeted), "simulated_sequences": len(sims), "attack_sequence": seq_name(attack),
+        "targeted_sequences": len(targeted), "simulated_sequences": len(sims),
+        "attack_sequences": {src: a[0] + ":" + seq_name(a[1]) for src, a in attacks},
+        "node_classes": sorted({u["ns"] for u in units}),
+        "after_every_sequence": "NewHeight timeout (if pending), one failed round, one committed height",
         "sequences_executed": len(units), "messages_sent": sum(1 for r in rows_all if r.get("ev") == "Msg" and r["sent"]),
         "process_crashes": crashes_all, "conformance_drift_count": len(v["drift"]), "conformance_drift_kinds": drift_by,
         "conformance_drift": [{"what": dr["what"], "step": core.abridge(dr["row"])} for dr in v["drift"][:10]],
@@ -301,7 +331,7 @@ def replay(ctx, rep):
     case = rep["signature"]["case"]
     if rep["signature"].get("half") == "reactor-seq":
         verdict = core.Verdict(ctx)
-        v = sequence_half(ctx, verdict, new_cov(), True, explicit=[rep["replay"]["sequence"]])
+        v = sequence_half(ctx, verdict, new_cov(), True, explicit=[(rep["replay"].get("ns", "later"), rep["replay"]["sequence"])])
         for x in v["viol"]:
             log("replay: %s/%s on sequence %s" % (x["inv"], x["class"], x["case"]))
         return verdict.finish()
